@@ -98,6 +98,11 @@ parts:
 		if dq == nil || len(dq.Parts) != 1 {
 			break
 		}
+		if dq.Dollar {
+			// $"..." is a translatable string; $'...' would instead
+			// interpret backslash escapes, changing the meaning.
+			break
+		}
 		lit, _ := dq.Parts[0].(*Lit)
 		if lit == nil {
 			break
